@@ -45,14 +45,21 @@ pub struct Program {
     /// channel of the replication link)
     #[serde(default)]
     pub bulk: u32,
+    /// the nodes bind their TCP listeners to private addresses and announce public ones (`--tcp-address` differs
+    /// from `--external-address`)
+    #[serde(default)]
+    pub split_addr: bool,
 }
 
 const DBN: [&str; 3] = ["d", "e", "f"];
 const KEYS: [&str; 3] = ["ka", "kb", "kc"];
-const VALS: [&str; 10] = ["one", "hello big world", "10 apples", "", "42", "a b", "ünï", "x", "7", "two words"];
+const VALS: [&str; 12] = ["one", "hello big world", "10 apples", "", "42", "a b", "ünï", "x", "7", "two words", "<Empty>", "<Empty>"];
 
 fn val_shape(v: &str) -> &'static str {
-    if v.is_empty() {
+    if v == "<Empty>" {
+        // a legal value that reads like the text nun-db prints for an absent key
+        "empty-literal"
+    } else if v.is_empty() {
         "empty"
     } else if v.split(' ').next().map(|w| w.parse::<i32>().is_ok()).unwrap_or(false) {
         if v.contains(' ') {
@@ -122,7 +129,8 @@ fn gen(rng: &mut Rng) -> Program {
         during = vec![if rng.chance(2, 3) { Op::Remove { db: 0, key: "kc".into() } } else { Op::Set { db: 0, key: "kc".into(), val: "8 plums and figs".into() } }];
     }
     let bulk = if rng.chance(1, 12) { rng.range(90, 260) as u32 } else { 0 };
-    Program { strategies, before, departure, away, during, during_at_sync, bulk }
+    let split_addr = rng.chance(1, 4);
+    Program { strategies, before, departure, away, during, during_at_sync, bulk, split_addr }
 }
 
 struct Outcome {
@@ -164,7 +172,7 @@ fn apply(s: &mut Session, cur: &mut Option<usize>, op: &Op, strategies: &[String
 
 fn execute(prog: Program) -> Outcome {
     let mut out = Outcome { setup: Err("boot".into()), violations: vec![], full_sync: false, compared_keys: 0 };
-    let w = World::new(2);
+    let w = World::new_split(2, prog.split_addr);
     let addrs = w.all_tcp();
     w.boot(0, &addrs);
     if !w.wait_primary(0, 5_000) {
@@ -441,6 +449,9 @@ pub struct Fresh {
     pub primary_restart: Option<Vec<usize>>,
     /// writes of new keys on the primary while the node synchronises
     pub during: Vec<FOp>,
+    /// `--tcp-address` differs from `--external-address` on every node
+    #[serde(default)]
+    pub split_addr: bool,
 }
 
 fn gen_fresh(rng: &mut Rng) -> Fresh {
@@ -463,7 +474,8 @@ fn gen_fresh(rng: &mut Rng) -> Fresh {
     let nd = rng.range(0, 2) as usize;
     // (no increment while the node joins: one accepted while the join election runs is a recorded finding)
     let during: Vec<FOp> = (0..nd).map(|_| one(rng, "late")).filter(|o| !matches!(o, FOp::Inc { .. })).collect();
-    Fresh { strategies, ops, primary_restart, during }
+    let split_addr = rng.chance(1, 4);
+    Fresh { strategies, ops, primary_restart, during, split_addr }
 }
 
 fn apply_fresh(s: &mut Session, cur: &mut Option<usize>, op: &FOp) {
@@ -500,7 +512,7 @@ fn key_class(k: &str) -> &'static str {
 
 fn execute_fresh(prog: Fresh) -> Outcome {
     let mut out = Outcome { setup: Err("boot".into()), violations: vec![], full_sync: true, compared_keys: 0 };
-    let w = World::new(2);
+    let w = World::new_split(2, prog.split_addr);
     let addrs = w.all_tcp();
     w.boot(0, &addrs);
     if !w.wait_primary(0, 5_000) {
